@@ -281,6 +281,9 @@ FilePathPrepD(dv, uri) ==
   IF "FilePathNoCheck" \notin dv /\ Guard(fp) THEN FindPrep("none", NoArg, NoArg)
   ELSE FindPrep("plain", PathArg(fp), NoArg)
 
+\* handlers.rs serve_file: a configured path (here: relative to the root), whatever the request
+ServeFileD(dv, w, cfgRel) == LET n == OsLookup(w, cfgRel) IN IF n.k = "f" THEN FileAnswer(w, n, "") ELSE A404(w)
+
 HandlerNames == {"serve_dir", "directory", "file_path"}
 HandlePrepD(dv, h, route, uri) ==
   IF h = "serve_dir" THEN TryFindPrepD(dv, ServeDirStrip(route, uri))
@@ -357,6 +360,8 @@ ExpectLiteralOn(w, lp) ==
           ELSE IF n.k = "d" THEN One("refused", 0, "") ELSE One("notfound", 0, ""))
     ELSE IF n.k = "f" /\ InsideNode(w, n) THEN Exp("refused", 0, "", "file", n.id, CtOf(n)) ELSE One("refused", 0, "")
 ExpectLiteral(w, rel) == ExpectLiteralOn(w, ExpectLiteralPrep(rel))
+\* serve_file: "serve the specified file, or a default error 404 if not found"
+ExpectFixed(w, cfgRel) == LET n == OsLookup(w, cfgRel) IN IF n.k = "f" THEN One("file", n.id, CtOf(n)) ELSE One("notfound", 0, "")
 
 CtOk(ect, gct) == IF ect = "?" THEN gct \in {"", OCTET} ELSE gct = ect
 ConformsOne(k, id, ct, uri, g) ==
@@ -470,6 +475,7 @@ PositiveHalf(w) ==
      /\ \A sp \in Spellings(RelNames(w, n)) : \A route \in RouteSet : \A h \in {"serve_dir", "directory"} :
            IsFileAnswer(Handle(h, w, route, Prefix(route) \o sp), n, {"", OCTET})
      /\ IsFileAnswer(Handle("file_path", w, <<>>, <<SLASH>> \o JoinSlash(RelNames(w, n))), n, {"", OCTET})
+     /\ IsFileAnswer(ServeFileD(Dev, w, JoinSlash(RelNames(w, n))), n, {"", OCTET})
 
 Child(w, d, name) == NodeAt(w, Append(d.p, name))
 RedirectIndexRule(w) ==
